@@ -228,7 +228,8 @@ FILE_ATOMS = ['a', 'test', '.txt', '.', '..', '/', '-', '_', ' ', 'Ångström', 
               'passwd', '𝟏', 'ﬁ', '"', 'COM1', '~', '*']
 LATIN_FILE_ATOMS = ['a', 'test', '.txt', '.', '/', '-', ' ', 'Ångström', 'é', 'ü', ';', "'", '%41', '~', '"', '\xa0', 'ÿ']
 CTYPES = [None, None, ['text/plain', None], ['text/plain', 'utf-8'], ['text/plain', 'iso-8859-1'], ['text/plain', 'ascii'],
-          ['application/json', None], ['application/json', None], ['application/octet-stream', None], ['image/png', None],
+          ['application/json', None], ['application/json', None], ['application/json', None],
+          ['application/octet-stream', None], ['image/png', None],
           ['text/html', 'utf-8'], ['text/plain', 'x-no-such-charset']]
 EXTRAS = [['X-Custom', 'v'], ['Content-Length', '3'], ['Content-Transfer-Encoding', 'binary'], ['X-Empty', ''],
           ['Content-Id', '<a@b>'], ['X-Long', 'l' * 40]]
@@ -344,7 +345,7 @@ def pattern_for(draw, part):
     kinds = ['skip', 'read', 'read', 'read_all', 'chunked', 'data', 'data2', 'text', 'read_until', 'readline', 'pipe',
              'iter', 'read_then_data', 'ru_then_read', 'lines', 'exhaust']
     if part_base(part) == 'application/json':
-        kinds += ['media'] * 6
+        kinds += ['media'] * 12
     k = draw(st.sampled_from(kinds))
     if k in ('read', 'read_then_data'):
         return [k, draw(st.one_of(st.integers(0, n + 2), st.integers(0, 3)))]
@@ -380,6 +381,20 @@ def valid_cases(draw):
             'transport': draw(transports(form, len(body)))}
 
 
+def near_misses(content, delim):
+    """[(offset, length)] of proper delimiter prefixes of >= 2 bytes inside content."""
+    out = []
+    p = content.find(b'\r')
+    while p >= 0:
+        j = 1
+        while j < len(delim) and p + j < len(content) and content[p + j] == delim[j]:
+            j += 1
+        if 2 <= j < len(delim):
+            out.append((p, j))
+        p = content.find(b'\r', p + 1)
+    return out
+
+
 @st.composite
 def big_cases(draw):
     """Bodies of 8-70 KiB in which the end of one part's content (= start of a delimiter) is placed within a
@@ -396,6 +411,12 @@ def big_cases(draw):
     dlen = len(delimiter(form))
     # the edge falls somewhere inside the hostile tail of the content or inside the delimiter that follows it
     off = draw(st.one_of(st.integers(-dlen - 1, 1), st.integers(-dlen - 2, min(len(form['parts'][i]['content']), 40) + 2)))
+    content = form['parts'][i]['content']
+    nm = near_misses(content, delimiter(form))
+    if nm and draw(st.booleans()):
+        # put the edge inside a near miss (a proper prefix of the delimiter) of the hostile tail
+        p, j = nm[draw(st.integers(0, len(nm) - 1))]
+        off = len(content) - p - draw(st.integers(1, j - 1))
     ce = layout['parts'][i]['content'][1]
     pad = edge + off - ce
     while pad < 0:
